@@ -237,6 +237,19 @@ def perform(acl: Acl, op: dict):
                 else:
                     port.line = " ".join([op["operator"], *map(str, op["items"])])
         return None
+    if k == "set_addr":
+        leaf = leaf_at(acl, op["i"], op["j"])
+        if isinstance(leaf, Ace) and acl.type == "extended":
+            addr = leaf.srcaddr if op["side"] == "src" else leaf.dstaddr
+            if addr.type != "addrgroup":
+                addr.line = op["line"]
+        return None
+    if k == "set_option":
+        leaf = leaf_at(acl, op["i"], op["j"])
+        if isinstance(leaf, Ace) and acl.type == "extended" and \
+                (not op["flags"] or leaf.protocol.number == 6):
+            leaf.option.line = " ".join([*op["flags"], *op["logs"]])
+        return None
     if k == "set_note":
         leaf = leaf_at(acl, op["i"], op["j"])
         if leaf is not None:
